@@ -235,7 +235,7 @@ def parse_verdicts(out):
 
 
 def trace_validate(module, cfg, cases, scratch, *, chunks=None, key="cases", extra_doc=None,
-                   timeout=3600, xmx="3g", env=None):
+                   timeout=3600, xmx="3g", env=None, roundrobin=True):
     """Validate recorded cases with the trace spec, in parallel chunks (one TLC, -workers 1, per
     chunk).  Each chunk's SUMMARY must account for every case it was given.
     Returns dict(verdicts=[...], n=..., ok=..., dev=..., fail=..., states, transitions)."""
@@ -248,6 +248,12 @@ def trace_validate(module, cfg, cases, scratch, *, chunks=None, key="cases", ext
     # a chunk is also bounded in bytes: the JSON document of one TLC process must fit its heap
     # (Json.deserialize builds the whole value); big runs simply get more chunks, NCPU at a time
     texts = [json.dumps(c) for c in cases]
+    if roundrobin and chunks > 1:
+        # families of very different cost usually arrive one after the other: deal the cases out like cards so that
+        # every TLC process gets its share of each family (cases are independent, verdicts are matched by id)
+        order = [i for k in range(chunks) for i in range(k, n, chunks)]
+        cases = [cases[i] for i in order]
+        texts = [texts[i] for i in order]
     parts, ptexts, cur, curt, curb = [], [], [], [], 0
     for c, t in zip(cases, texts):
         if cur and (len(cur) >= size or curb + len(t) > MAX_CHUNK_BYTES):
